@@ -59,7 +59,7 @@ def Eng.evict (s : Eng M) (h : H) : Eng M :=
       let t := s.table
       let i2 := slot2 s h
       let s := { s with table := #[] }
-      { s with table := t.setIfInBounds i2 e1 }
+      { s with table := t.setIfInBounds i2 e1, wlog := (i2, e1) :: s.wlog }
     else s
 
 /-- the index of `&m.table[i1]` (`len(m.table) = 0` panics with a division by zero) -/
@@ -80,7 +80,7 @@ def ttPut (o : Oracle M) (s : Eng M) (h : H) : Except Err (Option Nat × Eng M) 
 def Eng.setEntry (s : Eng M) (i : Nat) (e : TEntry M) : Eng M :=
   let t := s.table
   let s := { s with table := #[] }
-  { s with table := t.setIfInBounds i e }
+  { s with table := t.setIfInBounds i e, wlog := (i, e) :: s.wlog }
 
 /-- `teSuffices` -/
 def teSuffices (te : TEntry M) (depth : Int) (α β : Int) : Bool :=
@@ -454,11 +454,11 @@ def analyzeFrom [DecidableEq M] (g : Game P M) (cfg : Cfg) (o : Oracle M) (p : P
   | .ok (a, s) => .ok ((a.ms, a.v, a.st), s)
 
 /-- `Analyze` (context without deadline).  The per-call cancel flag is fresh: the load/evaluation counters
-the cancel oracle is indexed by restart at 0. -/
+the cancel oracle is indexed by restart at 0 (and the ghost write log is cleared). -/
 def analyze [DecidableEq M] (g : Game P M) (cfg : Cfg) (o : Oracle M) (p : P) (s : Eng M) :
     Except Err ((List M × Int × Stats) × Eng M) :=
-  (ttGet { s with loads := 0, evals := 0, sorts := 0, rnds := 0 } (g.hash p)).bind fun te =>
-    analyzeFrom g cfg o p (seedOf te) { s with loads := 0, evals := 0, sorts := 0, rnds := 0 }
+  (ttGet { s with loads := 0, evals := 0, sorts := 0, rnds := 0, wlog := [] } (g.hash p)).bind fun te =>
+    analyzeFrom g cfg o p (seedOf te) { s with loads := 0, evals := 0, sorts := 0, rnds := 0, wlog := [] }
 
 /-- the generator literal of `GetMove`/`AnalyzeAll`: `ply 0`, no table entry -/
 def rootMG (depth : Int) (pv : List M) : MG M := ⟨0, depth, none, pv⟩
